@@ -247,6 +247,11 @@ type c01Model struct {
 	nodes  map[string]*fakeconsul.Node
 	svcs   map[string]*c01Svc // node/id
 	manual []refmodel.Def
+	// broken: a line the route command parser rejects, put into the KV override next to the commands (an operator's typo).
+	// While it is there the commands of the last override that was accepted (lastGood) stay in force and the table goes on
+	// following the registry.
+	broken   string
+	lastGood []refmodel.Def
 }
 
 func (m *c01Model) expected(accepted []string, strict bool) refmodel.Table {
@@ -289,7 +294,11 @@ func (m *c01Model) expected(accepted []string, strict bool) refmodel.Table {
 		}
 	}
 	// the operator's commands on top
-	for _, d := range m.manual {
+	inForce := m.manual
+	if m.broken != "" {
+		inForce = m.lastGood
+	}
+	for _, d := range inForce {
 		t.Apply(d)
 	}
 	t.Normalize()
@@ -299,7 +308,7 @@ func (m *c01Model) expected(accepted []string, strict bool) refmodel.Table {
 // healthyKeys lists "service dst" of every routed destination of instances that are healthy by the registry alone.
 func (m *c01Model) healthyKeys(accepted []string, strict bool) map[string]bool {
 	mm := *m
-	mm.manual = nil
+	mm.manual, mm.lastGood = nil, nil
 	out := map[string]bool{}
 	for _, f := range mm.expected(accepted, strict).Flatten() {
 		out[f.Service+" "+f.Dst] = true
@@ -422,9 +431,17 @@ func c01History(c *ctx, ci int, cf c01Config, nbar int) {
 		for _, d := range m.manual {
 			lines = append(lines, d.Text())
 		}
+		if m.broken != "" {
+			lines = append(lines, m.broken)
+		}
 		return strings.Join(lines, "\n")
 	}
-	pushManual := func() { rg.setManual(manualText()) }
+	pushManual := func() {
+		if m.broken == "" {
+			m.lastGood = append([]refmodel.Def(nil), m.manual...)
+		}
+		rg.setManual(manualText())
+	}
 	// background poller for the no-resurrection clause
 	var stop atomic.Bool
 	var pollWG sync.WaitGroup
@@ -549,7 +566,14 @@ func c01History(c *ctx, ci int, cf c01Config, nbar int) {
 				}
 				steps = append(steps, fmt.Sprintf("service maintenance %s -> %v", sv.ID, sv.Maint))
 			default: // manual commands
-				switch r.Intn(5) {
+				switch r.Intn(6) {
+				case 5:
+					// a typo gets into the override, or is repaired; with the typo in, edits of the other commands have no effect
+					if m.broken == "" {
+						m.broken = choose(r, []string{"route ad typo a.test/ http://10.9.9.9:80/", "route add incomplete", "route weight svc a.test/ weight heavy", "rout del web", "route add q a.test/ http://10.9.9.9:80/ tags \"unbalanced"})
+					} else {
+						m.broken = ""
+					}
 				case 0:
 					m.manual = nil
 				case 1:
